@@ -1,7 +1,156 @@
+(* C05 — division_connected holds exactly for labelings whose classes are connected.
+   Model: Graph/Division.v (post_division = cspuz.graph._division_connected,
+   division_connected = the public wrapper).  extends_sat st st' en = "the
+   constraints added by the call are satisfiable for the caller's assignment en";
+   label_of en labels v = the value of the v-th label expression under en. *)
 From Coq Require Import ZArith List.
-From Cspuz Require Import Lib.PyErr Core.Expr Core.Program Graph.GraphModel Graph.Division.
-Theorem division_grid_no_roots : forall st h w data R aeg p,
-  division_connected st (D2 h w data) R None None aeg p
-  = post_division st (SArr data) R (grid_graph h w) None aeg p.
-Proof. reflexivity. Qed.
-Print Assumptions division_grid_no_roots.
+From Cspuz Require Import Lib.PyErr Core.Expr Core.Program Graph.GraphModel Graph.Division
+  Graph.DivisionCert Graph.DivisionProofs Graph.DivisionPrim Graph.DivisionMain.
+Import ListNotations.
+
+(* auxiliary encoding, explicit graph: both directions, all (multi)graphs with
+   loops and parallel edges, all num_regions, all roots lists, allow_empty_group
+   on/off, labels = arbitrary int-valued expressions over the caller's variables;
+   any meaning of the native graph operators *)
+Theorem division_exact :
+  forall (gsem : op -> list (option value) -> option bool) st s R g roots aeg st' en,
+    wf_graph g = true ->
+    length (seq_data s) = nv g ->
+    labels_ok gsem (next_id st) (seq_data s) ->
+    post_division st s R g roots aeg false = Ok st' ->
+    (extends_sat gsem st st' en <-> spec_division g R (label_of gsem en (seq_data s)) roots aeg).
+Proof. exact DivisionProofs.division_exact. Qed.
+Print Assumptions division_exact.
+
+(* primitive encoding: reduction to the same specification, with the meaning of
+   GRAPH_ACTIVE_VERTICES_CONNECTED defined as connectivity (division_gsem) *)
+Theorem division_primitive : forall st s R g roots aeg st' en,
+  wf_graph g = true ->
+  length (seq_data s) = nv g ->
+  labels_ok division_gsem (next_id st) (seq_data s) ->
+  post_division st s R g roots aeg true = Ok st' ->
+  (extends_sat division_gsem st st' en
+   <-> spec_division g R (label_of division_gsem en (seq_data s)) roots aeg).
+Proof. exact DivisionPrim.division_primitive. Qed.
+Print Assumptions division_primitive.
+
+(* both encodings, label entries given by the typing predicate of Core/Expr.v *)
+Theorem division_exact_wt : forall st s R g roots aeg prim st' en,
+  wf_graph g = true ->
+  length (seq_data s) = nv g ->
+  Forall (fun d => wt_int d = true /\ max_id d <= next_id st) (seq_data s) ->
+  post_division st s R g roots aeg prim = Ok st' ->
+  (extends_sat division_gsem st st' en
+   <-> spec_division g R (label_of division_gsem en (seq_data s)) roots aeg).
+Proof. exact DivisionMain.division_exact_wt. Qed.
+Print Assumptions division_exact_wt.
+
+(* the same as a statement about models of the whole program after the call *)
+Theorem division_exact_models : forall st s R g roots aeg prim st' en,
+  wf_graph g = true ->
+  length (seq_data s) = nv g ->
+  labels_ok division_gsem (next_id st) (seq_data s) ->
+  cons_closed st -> model_of division_gsem en st ->
+  post_division st s R g roots aeg prim = Ok st' ->
+  ((exists en', agree_below (next_id st) en en' /\ model_of division_gsem en' st')
+   <-> spec_division g R (label_of division_gsem en (seq_data s)) roots aeg).
+Proof. exact DivisionMain.division_exact_models. Qed.
+Print Assumptions division_exact_models.
+
+(* level S on its own: a certificate (rank, is_root, spanning_forest) exists iff
+   the specification holds *)
+Theorem division_cert_iff_spec : forall g R label roots aeg,
+  wf_graph g = true ->
+  ((exists rank is_root forest, ranks_in_range (nv g) rank /\
+      cert_division g R label roots aeg rank is_root forest = true)
+   <-> spec_division g R label roots aeg).
+Proof. exact DivisionCert.cert_iff_spec. Qed.
+Print Assumptions division_cert_iff_spec.
+
+(* inferred grids: roots (y, x) become vertex ids y * w + x of the grid graph *)
+Theorem division_grid_roots : forall st h w data R rs aeg p,
+  division_connected st (D2 h w data) R None (Some (map grid_root_arg rs)) aeg p
+  = post_division st (SArr data) R (grid_graph h w) (Some (map (grid_root_vertex w) rs)) aeg p.
+Proof. exact DivisionMain.division_grid_roots. Qed.
+Print Assumptions division_grid_roots.
+
+Theorem grid_root_vertex_cell : forall h w y x,
+  (y < h)%nat -> (x < w)%nat ->
+  root_vertex (nv (grid_graph h w)) (grid_root_vertex w (GCell (Z.of_nat y) (Z.of_nat x)))
+  = Some (Some (y * w + x)%nat).
+Proof. exact DivisionMain.grid_root_vertex_cell. Qed.
+Print Assumptions grid_root_vertex_cell.
+
+(* an int root in grid form raises TypeError, a tuple of another length ValueError *)
+Theorem division_grid_bad_root : forall st h w data R pre a post aeg p,
+  forallb grid_entry_ok pre = true -> grid_entry_ok a = false ->
+  division_connected st (D2 h w data) R None (Some (pre ++ a :: post)) aeg p
+  = Err (match a with RInt _ => TypeError | _ => ValueError end).
+Proof. exact DivisionMain.division_grid_bad_root. Qed.
+Print Assumptions division_grid_bad_root.
+
+Theorem division_wrapper_type_errors : forall st s h w data R g roots aeg p,
+  division_connected st (D1 s) R None roots aeg p = Err TypeError /\
+  division_connected st (D2 h w data) R (Some g) roots aeg p = Err TypeError.
+Proof. exact DivisionMain.division_wrapper_type_errors. Qed.
+Print Assumptions division_wrapper_type_errors.
+
+(* the property on inferred grids, both encodings *)
+Theorem division_exact_grid : forall st h w data R rs aeg p st' en,
+  length data = (h * w)%nat ->
+  labels_ok division_gsem (next_id st) data ->
+  division_connected st (D2 h w data) R None (option_map (map grid_root_arg) rs) aeg p = Ok st' ->
+  (extends_sat division_gsem st st' en
+   <-> spec_division (grid_graph h w) R (label_of division_gsem en data)
+         (option_map (map (grid_root_vertex w)) rs) aeg).
+Proof. exact DivisionMain.division_exact_grid. Qed.
+Print Assumptions division_exact_grid.
+
+(* under the property's range hypothesis the specification reads "the vertices
+   carrying each label induce a connected subgraph" *)
+Theorem all_classes_connected : forall g R label,
+  labels_in_range (nv g) R label ->
+  ((forall k, (k < R)%nat -> connected g (class_of label k))
+   <-> (forall z : Z, connected g (fun v => Z.eqb (label v) z))).
+Proof. exact DivisionMain.all_classes_connected. Qed.
+Print Assumptions all_classes_connected.
+
+(* the executable specification used by the search is the specification *)
+Theorem spec_division_b_spec : forall g R label roots aeg,
+  wf_graph g = true ->
+  (spec_division_b g R label roots aeg = true <-> spec_division g R label roots aeg).
+Proof. exact DivisionMain.spec_division_b_spec. Qed.
+Print Assumptions spec_division_b_spec.
+
+(* remark (not a defect): without the range hypothesis the posted constraints
+   admit a disconnected class of an out-of-range label *)
+Theorem division_range_needed :
+  exists st',
+    post_division empty_state (SList [PyInt 5; PyInt 5]) 1 g2 None true false = Ok st' /\
+    extends_sat division_gsem empty_state st' env0 /\
+    ~ connected g2 (fun v => Z.eqb (label_of division_gsem env0 [PyInt 5; PyInt 5] v) 5).
+Proof. exact DivisionMain.division_range_needed. Qed.
+Print Assumptions division_range_needed.
+
+(* error points: no vertices; a tuple / an out-of-range id in roots (explicit-graph form) *)
+Theorem division_zero_vertices : forall st s R g roots aeg,
+  nv g = 0%nat -> post_division st s R g roots aeg false = Err ValueError.
+Proof. exact DivisionMain.division_zero_vertices. Qed.
+Print Assumptions division_zero_vertices.
+
+Theorem roots_error_primitive : forall labels pre a post k,
+  Forall (fun b => exists v, root_vertex (length labels) b = Some v) pre ->
+  root_vertex (length labels) a = None ->
+  prim_roots labels k (pre ++ a :: post)
+  = Err (match a with RTup _ => TypeError | _ => IndexError end).
+Proof. exact DivisionMain.roots_error_primitive. Qed.
+Print Assumptions roots_error_primitive.
+
+Theorem roots_error_aux : forall labels root pre a post k,
+  length root = length labels ->
+  Forall (fun b => exists v, root_vertex (length labels) b = Some v) pre ->
+  root_vertex (length labels) a = None ->
+  aux_roots labels root k (pre ++ a :: post)
+  = Err (match a with RTup _ => TypeError | _ => IndexError end).
+Proof. exact DivisionMain.roots_error_aux. Qed.
+Print Assumptions roots_error_aux.
